@@ -644,13 +644,22 @@ impl<'a> Exec<'a> {
       // same diagnostics up to the order of listed names
       for (m, errs) in &sut_exact {
         let f = fresh_exact.get(m).cloned().unwrap_or_default();
-        for (t, k) in errs {
-          let k = kind_of(k);
+        for (t, kfull) in errs {
+          let k = kind_of(kfull);
           if !f.iter().any(|x| x.0 == *t) {
             let first = t.split(" | ").take(2).collect::<Vec<_>>().join(" | ");
+            // the recorded findings (F7) can only swap or choose among names of 16 bytes or more
+            let counterpart = f.iter().find(|y| y.1 == *kfull && !errs.iter().any(|z| z.0 == y.0));
+            let f7 = counterpart.map(|y| simcore::explained_by_order_of_long_names(t, &y.0)).unwrap_or(false);
+            let what = match (k == "NonExhaustiveMatch", f7) {
+              (true, true) => "counterexample_choice",
+              (true, false) => "counterexample_choice_not_by_long_names",
+              (false, true) => "list_order",
+              (false, false) => "list_order_not_by_long_names",
+            };
             self.violation(
               i,
-              if k == "NonExhaustiveMatch" { format!("counterexample_choice|{k}") } else { format!("list_order|{k}") },
+              format!("{what}|{k}"),
               format!("after {}: module {m} has the same diagnostic as a fresh server up to the order / choice of listed names: {first}", op.kind()),
             );
           }
